@@ -558,17 +558,20 @@ class IntersectionMatcher(AdditiveBiMatcher):
                 # If the block quality of A is less than B, skip A ahead until
                 # it can contribute at least the balance of the required min
                 # quality when added to B
+                before = a.id()
                 sk = a.skip_to_quality(minquality - b.max_quality())
                 skipped += sk
-                if not sk and a.is_active():
+                if a.is_active() and a.id() == before:
                     # The matcher couldn't skip ahead for some reason, so just
-                    # advance and try again
+                    # advance and try again. (A matcher can move without
+                    # reporting skipped blocks, so go by its position.)
                     a.next()
             else:
                 # And vice-versa
+                before = b.id()
                 sk = b.skip_to_quality(minquality - a.max_quality())
                 skipped += sk
-                if not sk and b.is_active():
+                if b.is_active() and b.id() == before:
                     b.next()
 
             if not a.is_active() or not b.is_active():
